@@ -2986,11 +2986,15 @@ def thread_generator(body):
         if state["done"] or state["closed"]:
             return
         state["closed"] = True
+        import sys as _sys
+        if _sys.is_finalizing():
+            return              # at interpreter exit the helper threads no longer run: nothing to wait for
         if not state["started"]:
             state["started"] = True
             th.start()
         to_gen.release()
-        to_consumer.acquire()
+        # the helper thread unwinds (its pending `finally` blocks run) before the consumer goes on; never wait for ever
+        to_consumer.acquire(timeout=10)
 
     def gen():
         try:
